@@ -40,6 +40,8 @@ pub enum Profile {
     Conv,
     Modify,
     Migrate,
+    /// frequent changes of the chain environment (marker types, attributes) between requests
+    Env,
 }
 
 fn profile_of(s: &str) -> Profile {
@@ -51,6 +53,7 @@ fn profile_of(s: &str) -> Profile {
         "conv" => Profile::Conv,
         "modify" => Profile::Modify,
         "migrate" => Profile::Migrate,
+        "env" => Profile::Env,
         _ => Profile::Mixed,
     }
 }
@@ -792,6 +795,7 @@ impl Driver {
                 Profile::Conv => (22, 12, 18, 22, 22, 2),
                 Profile::Modify => (12, 12, 4, 12, 12, 44),
                 Profile::Migrate => (16, 20, 6, 16, 28, 4),
+                Profile::Env => (14, 14, 8, 16, 22, 2),
             };
             let req = if roll < w_ask {
                 Some(self.gen_create_ask(&st))
@@ -807,7 +811,7 @@ impl Driver {
                 Some(self.gen_modify(&st))
             } else {
                 // change the environment now and then: marker types and attributes are chain state
-                if self.chance(0.1) {
+                if self.chance(if p == Profile::Env { 0.7 } else { 0.1 }) {
                     let dn = self.pick(&["base", "cv1", "cv2", "q1", "q2"]).to_string();
                     let k = self.pick(&["restricted", "coin", "none"]).to_string();
                     self.env.marker.insert(dn, k);
